@@ -537,6 +537,14 @@ def _(c):
     pl.gap_width, pl.overlap, pl.vary_by_categories = 55, -20, True
 
 
+@op("chart.plot_bubble_scale", ["chart_bubble"])
+def _(c): _ch(c).plots[0].bubble_scale = 50
+
+
+@op("chart.plot_bubble_scale_none", ["chart_bubble"])
+def _(c): _ch(c).plots[0].bubble_scale = None
+
+
 @op("chart.plot_vary", ["chart_pie", "chart_line"])
 def _(c): _ch(c).plots[0].vary_by_categories = False
 
